@@ -1,6 +1,6 @@
 """C07 — DNS questions and answers are routed by the first matching DNS rule."""
 import collections, json, os, subprocess
-from verifkit import read_lines, VERIF, LEAN
+from verifkit import read_lines, VERIF, LEAN, REPO, sh, go_env
 
 REQUIRED = ["DaeVerif.C07.Props." + n for n in (
     "builder_accepts_wellformed",
@@ -16,6 +16,7 @@ REQUIRED = ["DaeVerif.C07.Props." + n for n in (
     "stale_hit_refreshes_from_routed_upstream",
     "reject_beats_stale_cache",
     "reask_bounded_optimistic",
+    "controller_steps_as_modelled",
     "request_match_is_first_match",
     "first_match_is_first",
     "name_case_and_trailing_dot",
@@ -49,6 +50,18 @@ def run(ctx):
         "the response cache is modelled as a key → records map of fresh entries (expiry, stale serving, LRU are C08's subject); upstream transports are fake forwarders",
         "miekg/dns Pack/Unpack/CanonicalName; names are ASCII without backslash escapes",
     ]
+    # source-structure guard: regenerate the step order of the controller's request path from the Go source
+    # under test (go/ast translator); Props.controller_steps_as_modelled compares it with the model's skeleton
+    gen = os.path.join(LEAN, "DaeVerif", "C07", "Gen", "Skeleton.lean")
+    rc, out, _ = sh(["go", "run", "main.go", os.path.join(REPO, "control")],
+                    cwd=os.path.join(VERIF, "translators", "c07skel"), env=go_env(), timeout=600)
+    if rc != 0 or "namespace DaeVerif.C07.Gen" not in out:
+        ctx.say("TRANSLATOR-FAILED c07skel:", out[-2000:])
+        return 2
+    out = out[out.index("/-! GENERATED"):]
+    if not os.path.exists(gen) or open(gen).read() != out:
+        os.makedirs(os.path.dirname(gen), exist_ok=True)
+        open(gen, "w").write(out)
     ctx.prove(["DaeVerif.C07.Props", "DaeVerif.C07.Compose"], ["DaeVerif.C07.Props"], ["DaeVerif/C07/*.lean"],
               extra_targets=["c07drv"])
     ctx.required_theorems(REQUIRED)
